@@ -126,6 +126,30 @@ func replaceField(b []byte, w *Walk, f Field, repl []byte, fix bool) []byte {
 	return out
 }
 
+// fixBodySizes adjusts the size field of body bi and of the code section after a change of delta bytes
+// inside that body (both fields precede the change, so their positions are still valid).
+func fixBodySizes(o []byte, w *Walk, bi int, delta int) []byte {
+	n := -1
+	for _, f := range w.Fields {
+		if f.Kind == "code-body-size" {
+			n++
+			if n == bi {
+				o = splice(o, f.Pos, f.Len, padded(uint64(int64(f.Val)+int64(delta)), f.Len))
+			}
+		}
+	}
+	for _, s := range w.Sections {
+		if s.ID == 10 {
+			for _, f := range w.Fields {
+				if f.Kind == "section-size" && f.Pos == s.SizePos {
+					o = splice(o, f.Pos, f.Len, padded(uint64(int64(f.Val)+int64(delta)), f.Len))
+				}
+			}
+		}
+	}
+	return o
+}
+
 var interesting = []uint64{0, 1, 2, 0x7f, 0x80, 0x3fff, 0x4000, 50000, 50001, 0x1fffff, 0x200000, 1 << 24, 1 << 27, 1<<27 + 1, 1 << 28, 1 << 30, 1<<31 - 1, 1 << 31, 1<<32 - 1}
 
 var opcodeAlphabet = func() []byte {
@@ -156,7 +180,23 @@ func mutate(r *rand.Rand, b []byte, other []byte) (out []byte, kind string) {
 		return f.Elem > 0 || strings.HasSuffix(f.Kind, "-count") || strings.HasSuffix(f.Kind, "-size") || f.Kind == "locals-groups"
 	}
 	for try := 0; try < 8; try++ {
-		switch r.Intn(16) {
+		switch r.Intn(17) {
+		case 16: // an opcode after a prefix byte (0xfc/0xfd/0xfe), re-encoded as a padded LEB128 (legal for u32)
+			if len(w.Bodies) > 0 {
+				bi := r.Intn(len(w.Bodies))
+				bd := w.Bodies[bi]
+				var pos []int
+				for i := bd[0]; i+1 < bd[1]; i++ {
+					if (b[i] == 0xfc || b[i] == 0xfd || b[i] == 0xfe) && b[i+1] < 0x80 {
+						pos = append(pos, i)
+					}
+				}
+				if len(pos) > 0 {
+					i := pos[r.Intn(len(pos))]
+					o := splice(b, i+1, 1, []byte{b[i+1] | 0x80, 0x00})
+					return fixBodySizes(o, w, bi, 1), fmt.Sprintf("prefixed-opcode-padded:%02x", b[i])
+				}
+			}
 		case 0: // bit flip inside a LEB field
 			if f, ok := pickField(func(Field) bool { return true }); ok {
 				out = append([]byte{}, b...)
